@@ -27,6 +27,7 @@ FLAVOURS = {
     "assert": "g++",
     "tsan": "clang++",
     "asan": "clang++",
+    "cov": "clang++",     # reach measurement only (selftest/coverage.sh)
 }
 
 # per check: which flavours run which share of the batch, budgets, batching
